@@ -380,6 +380,8 @@ class Engine:
     def select_variant(self, cands, args: List[V]):
         def fits(v: V, t: T) -> bool:
             if isinstance(t, TAny): return True
+            if isinstance(t, TNone): return isinstance(v, VNone)
+            if isinstance(v, VNone): return isinstance(t, TOpt)
             if isinstance(t, TOpt): return isinstance(v, (VNone, VOpt)) or fits(v, t.t)
             if isinstance(v, VOpt): return fits(v.val, t)
             if isinstance(t, TRec): return isinstance(v, VRec) and v.cls == t.name
@@ -387,7 +389,9 @@ class Engine:
             if isinstance(t, TBool): return isinstance(v, VBool)
             if isinstance(t, TNStr): return isinstance(v, VNStr)
             if isinstance(t, TSeq): return isinstance(v, (VSeq, VTup)) and self.to_seq(v).kind == t.kind
-            if isinstance(t, TTup): return isinstance(v, VTup) and len(v.items) == len(t.items)
+            if isinstance(t, TTup):
+                return isinstance(v, VTup) and len(v.items) == len(t.items) and v.kind == t.kind and \
+                    all(fits(x, y) for x, y in zip(v.items, t.items))
             return False
         for c in cands:
             params = self.params_of(c)
@@ -525,10 +529,35 @@ class Engine:
                 if note not in self.dropped:
                     self.dropped.append(note)
                 return st.env[ghost[txt]]
+        ghost_calls = (self.c.path_hints or {}).get("calls") if not self.spec_mode else None
+        if ghost_calls and isinstance(node, (ast.Call, ast.Subscript)):
+            txt = ast.unparse(node)
+            if txt in ghost_calls:
+                return self.ghost_call(ghost_calls[txt], txt, node, st)
         m = getattr(self, "ev_" + type(node).__name__, None)
         if m is None:
             raise Unsupported(f"expression {type(node).__name__} at L{getattr(node, 'lineno', '?')}")
         return m(node, st)
+
+    def ghost_call(self, g: str, txt: str, node, st):
+        if g.startswith("call:"):
+            # the expression is replaced by a call of a named (assumed) contract of the dependency:
+            # "call:<contract qualname>|<argument expressions over the local names>"
+            cname, _, argtxt = g[5:].partition("|")
+            cname = cname.strip()
+            cnode = ast.parse("f(" + argtxt + ")", mode="eval").body
+            cc = self.reg.by_name(cname)
+            if cc is None:
+                raise Unsupported(f"ghost call of unknown contract {cname}")
+            note = f"expression `{txt[:60]}` modelled by the contract of {cc.key}"
+            if note not in self.dropped:
+                self.dropped.append(note)
+            cargs = [self.ev(a, st) for a in cnode.args]
+            return self.call_contract(cc, cargs, st, node.lineno)
+        note = f"expression `{txt[:60]}` abstracted by the ghost term `{g[:60]}`"
+        if note not in self.dropped:
+            self.dropped.append(note)
+        return st.env[g] if g in st.env else self.ev_clause(g, st.env, heap=st.heap)
 
     def ev_Constant(self, node, st):
         v = node.value
@@ -587,6 +616,11 @@ class Engine:
                 raise Unsupported("starred in list display")
             items.append(self.ev(e, st))
         return VTup(items, "list")
+
+    def ev_Dict(self, node, st):
+        if len(node.keys) != 1 or node.keys[0] is None:
+            raise Unsupported("dict display (only single-entry displays {k: v} are modelled)")
+        return VTup([self.ev(node.keys[0], st), self.ev(node.values[0], st)], "dict")
 
     def ev_UnaryOp(self, node, st):
         v = self.ev(node.operand, st)
@@ -1140,6 +1174,25 @@ class Engine:
             if which == "uf_sort" and rng.name() in self.reg.records:
                 return VRec(rng.name(), app)
             return VBool(app) if which == "uf_bool" else VInt(app) if which == "uf_int" else VAny(app)
+        if isinstance(node.func, ast.Name) and node.func.id == "uf_str" and node.args and isinstance(node.args[0], ast.Constant):
+            # string-valued uninterpreted function of the specification (e.g. the string of a tree)
+            zs = []
+            for a in node.args[1:]:
+                v = self.ev(a, st)
+                if isinstance(v, VOpt):
+                    v = v.val
+                if isinstance(v, VSeq) and v.kind == "str":
+                    zs.append(self.str_id(v))
+                elif isinstance(v, (VRec, VAny, VInt, VBool)):
+                    zs.append(v.t)
+                else:
+                    raise Unsupported("uf_str over non-scalar argument")
+            res = self.fac.mk(TSeq("str", TInt()), "uf." + node.args[0].value, zs)
+            if not self.spec_mode:
+                st.pc.append(res.length >= 0)
+            else:
+                self.axioms.append(res.length >= 0) if not any(a_.eq(res.length >= 0) for a_ in self.axioms) else None
+            return res
         if isinstance(node.func, ast.Name) and node.func.id in ("forall_sort", "exists_sort") and len(node.args) == 3 \
                 and isinstance(node.args[0], ast.Name) and isinstance(node.args[1], ast.Constant):
             var, sname = node.args[0].id, node.args[1].value
@@ -1174,26 +1227,6 @@ class Engine:
         if isinstance(node.func, ast.Attribute) and node.func.attr == "join" and len(node.args) == 1:
             sep = self.ev(node.func.value, st)
             return self.join(sep, self.ev(node.args[0], st), st, node.lineno)
-        ghost_calls = (self.c.path_hints or {}).get("calls", {})
-        if ghost_calls:
-            txt = ast.unparse(node)
-            if txt in ghost_calls:
-                g = ghost_calls[txt]
-                if g.startswith("call:"):
-                    # the expression is replaced by a call of a named (assumed) contract of the dependency:
-                    # "call:<contract qualname>|<argument expressions over the local names>"
-                    cname, _, argtxt = g[5:].partition("|")
-                    cname = cname.strip()
-                    cnode = ast.parse("f(" + argtxt + ")", mode="eval").body
-                    cc = self.reg.by_name(cname)
-                    if cc is None:
-                        raise Unsupported(f"ghost call of unknown contract {cname}")
-                    note = f"expression `{txt[:60]}` modelled by the contract of {cc.key}"
-                    if note not in self.dropped:
-                        self.dropped.append(note)
-                    cargs = [self.ev(a, st) for a in cnode.args]
-                    return self.call_contract(cc, cargs, st, node.lineno)
-                return st.env[g] if g in st.env else self.ev_clause(g, st.env, heap=st.heap)
         if any(isinstance(a, ast.Starred) for a in node.args):
             raise Unsupported("starred call argument")
         if isinstance(node.func, ast.Attribute) and isinstance(node.func.value, ast.Name) \
@@ -1212,6 +1245,25 @@ class Engine:
                 st.env[name] = VSeq(old.kind, n - 1, old.at, old.elt)
                 return old.at(n - 1)
             raise Unsupported("list method form")
+        if isinstance(node.func, ast.Attribute) and node.func.attr in ("ljust", "rjust") and len(node.args) == 2 \
+                and not node.keywords:
+            base = self.ev(node.func.value, st)
+            if isinstance(base, VSeq) and base.kind == "str":
+                # str.ljust/rjust(width, fillchar): CPython semantics (assumed library contract):
+                # TypeError unless len(fillchar) == 1; pads to max(len, width)
+                w = self.as_int(self.ev(node.args[0], st))
+                fc = self.to_seq(self.ev(node.args[1], st))
+                self.safety(st, fc.length == 1, "TypeError", node.lineno, "fillchar-len")
+                n = base.length
+                pad = z3.If(w - n > 0, w - n, z3.IntVal(0))
+                c0 = fc.at(z3.IntVal(0))
+                if node.func.attr == "ljust":
+                    at = lambda i, base=base, n=n, c0=c0: self.merge(i < n, base.at(i), c0)
+                else:
+                    at = lambda i, base=base, pad=pad, c0=c0: self.merge(i < pad, c0, base.at(i - pad))
+                note = "str.ljust/rjust modelled by their CPython semantics (assumed library contract)"
+                if note not in self.dropped: self.dropped.append(note)
+                return VSeq("str", n + pad, at, TInt())
         f = self.ev(node.func, st)
         if isinstance(f, VFunc) and f.builtin in ("any", "all") and len(node.args) == 1 \
                 and isinstance(node.args[0], (ast.GeneratorExp, ast.ListComp)):
@@ -1458,9 +1510,9 @@ class Engine:
             for f in facts:
                 st.pc.append(z3.Implies(z3.And(*self.guards), f) if self.guards else f)
             return obj
-        init = self.method_contract(cls, "__init__")
         r = self.reg.records[cls]
         obj = self.fac.mk(TRec(cls), fresh_name("new_" + cls))
+        init = self.method_contract(cls, "__init__", [obj] + list(args))
         if init is not None:
             params = [p for p in self.params_of(init) if p != "self"]
             env = {"self": obj}
@@ -1478,7 +1530,7 @@ class Engine:
                 pre = self.truthy(self.ev_clause(init.requires, env, heap=st.heap))
                 self.oblige(st, f"pre@L{lineno}:{cls}.__init__", "pre@callsite", pre, lineno)
             if init.ensures:
-                env["result"] = obj
+                env.setdefault("result", obj)
                 fact = self.truthy(self.ev_clause(init.ensures_text(), env, heap=st.heap))
                 st.pc.append(z3.Implies(z3.And(*self.guards), fact) if self.guards else fact)
             return obj
@@ -1890,7 +1942,14 @@ class Engine:
                 body = select_fragment(node, c.fragment, self)
             outs = self.exec_block(body, st)
         final: List[Outcome] = []
+        open_end = bool(c.fragment) and c.fragment.get("rule") in ("until_stmt", "between_stmts")
         for o in outs:
+            if o.kind == "fall" and open_end:
+                # the fragment stops before the end of the function: a path running off its end is outside this
+                # obligation set, so it must be infeasible under the pre-condition
+                self.obls.append(Obligation(f"fragment-end-unreachable#{len(final) + 1}", "post", o.st.pc,
+                                            z3.BoolVal(False), getattr(node, "end_lineno", 0)))
+                continue
             if o.kind == "fall":
                 o = Outcome("return", o.st, VNone(), lineno=getattr(node, "end_lineno", 0))
             if o.kind in ("break", "continue"):
@@ -1965,6 +2024,23 @@ def select_fragment(fnode, frag: Dict[str, Any], eng: Engine) -> List[ast.stmt]:
             raise Unsupported(f"fragment: no top-level statement starts with `{frag['starts_with']}`")
         eng.dropped.append(f"fragment until_stmt: statements from `{frag['starts_with']}` on are not part of this "
                            "obligation set (a path reaching them must be infeasible under the contract's pre-condition)")
+        return out
+    if rule == "between_stmts":
+        out, on, hit = [], False, False
+        for st_ in fnode.body:
+            txt = ast.unparse(st_)
+            if not on and txt.startswith(frag["starts_with"]):
+                on = True
+            elif on and txt.startswith(frag["until"]):
+                hit = True
+                break
+            if on:
+                out.append(st_)
+        if not out or not hit:
+            raise Unsupported(f"fragment: statements `{frag['starts_with']}` .. `{frag['until']}` not found")
+        eng.dropped.append(f"fragment between_stmts: only the statements from `{frag['starts_with']}` (L{out[0].lineno}) up to "
+                           f"`{frag['until']}` are part of this obligation set; names defined before are ghost parameters, "
+                           "a path reaching the end must be infeasible under the pre-condition")
         return out
     if rule == "from_stmt":
         out, on = [], False
@@ -2067,8 +2143,23 @@ def _b_list(e, args, kw, st, ln):
 
 def _b_int(e, args, kw, st, ln):
     v = args[0]
-    if isinstance(v, (VInt, VBool)): return VInt(e.as_int(v))
-    raise Unsupported("int() of non-integer (string/float conversion is outside the subset)")
+    if isinstance(v, (VInt, VBool)) and len(args) == 1: return VInt(e.as_int(v))
+    if isinstance(v, VSeq) and v.kind == "str":
+        # int(s[, base]): ASSUMED library contract -- ValueError unless s is a numeral of that base
+        # (uninterpreted predicate), otherwise its value (uninterpreted function of the string value)
+        base = 10
+        if len(args) == 2:
+            b = z3.simplify(e.as_int(args[1]))
+            if not z3.is_int_value(b):
+                raise Unsupported("int(s, base) with a symbolic base")
+            base = b.as_long()
+        sid = e.str_id(v)
+        isnum = z3.Function(f"uf.is_numeral{base}", sort_of("StrId"), z3.BoolSort())(sid)
+        e.safety(st, isnum, "ValueError", ln, "int-of-non-numeral")
+        note = "int(str) modelled by uninterpreted is_numeral/str2int (assumed library contract)"
+        if note not in e.dropped: e.dropped.append(note)
+        return VInt(z3.Function(f"uf.str2int{base}", sort_of("StrId"), z3.IntSort())(sid))
+    raise Unsupported("int() of non-integer (float conversion is outside the subset)")
 
 
 def _b_bool(e, args, kw, st, ln):
